@@ -25,7 +25,7 @@ MANIFEST = {
                  'order, of sizes/etc and of stage combinations over a fixed '
                  'value set; relational oracles (order invariance, stage '
                  'composition) plus closed-form laws',
-    'text': 'On the real renderer: (perm) all subsets of <= 3 (quick) / <= 4 '
+    'text': 'On the real renderer: (perm) all subsets of <= 4 (quick) / <= 5 '
             '(thorough) of the 12 modifiers in every written order, with '
             'size at either end, must render identically; (law) every single '
             'modifier on every value against its closed form, url_quote -> '
@@ -132,7 +132,7 @@ def tag(opts, epfs=False, cfmt='s', name='x'):
 # ---------------------------------------------------------------- cases
 
 def cases(tier):
-    maxk = 3 if tier == 'quick' else 4
+    maxk = 4 if tier == 'quick' else 5
     for k in range(1, maxk + 1):
         for sub in itertools.combinations(range(len(MODS)), k):
             yield {'fam': 'perm', 'mods': list(sub)}
